@@ -76,7 +76,9 @@ Oracle boundaries (rule 1):
   (i)-(iii), with SciPy's documented criteria: nonlin methods stop on ||F||_inf <= tol ||F_0||_inf (s = r0); hybr /
   lm on MINPACK's xtol "relative error between two consecutive iterates" (s = sqrt(N) (1 + ||z*||)); df-sane on
   ||F|| <= tol (1 + ||F_0||).  These are SciPy's documented rules, not bounds proved from the tolerance (none
-  exists for a trust-region radius test).  linearmixing is not in the alphabet: its fixed mixing step needs more than
+  exists for a trust-region radius test).  broyden1 / broyden2 that signal non-convergence through the callback-fed
+  ``normed_residual`` are a violation on linear systems only (premise of the alphabet); on the nonlinear kinds SciPy's
+  Broyden updates carry no guarantee and nothing is claimed (counted).  linearmixing is not in the alphabet: its fixed mixing step needs more than
   200 residual evaluations on part of the family.
 * (i) is checked on the non-coupling outputs ``o{i}`` as on every other output (this is what exposed that
   MDAQuasiNewton returned them from its last residual evaluation, a finite-difference perturbation point).
@@ -574,6 +576,12 @@ def run_case(case, tally):
                 else:
                     s = r0
                 rep, its = None, int(m.current_iter)
+                if meth in ("broyden1", "broyden2") and not float(m.normed_residual) <= TOL:
+                    # the Broyden callbacks refresh normed_residual: the only non-convergence signal of this class
+                    if sysm.kind == "linear":  # premise of the alphabet: the method converges on linear systems
+                        failed = failed or (f"{name}[{meth}]", float(m.normed_residual), its, m.settings.max_mda_iter)
+                    elif decisive:  # no theory for SciPy's Broyden updates on the nonlinear kinds: nothing is claimed
+                        short = True
             else:
                 s = _s_factor(str(m.scaling), sysm.n_c, r0)
                 rep, its = float(m.normed_residual), int(m._current_iter)
